@@ -407,6 +407,55 @@ def structured_blocks(rng, reps: int):
         seq = debruijn_pairs(rng)
         for k in range(0, len(seq) - 47, 16):
             out.append(("all-transitions-walk", block_of_tribits(seq[k : k + 48])))
+    out += aggregate_blocks()
+    return out
+
+
+def aggregate_blocks():
+    """whole-block aggregates at their extremes.  Every stage of the codec is a local map, so a statistic of the
+    WHOLE block (how many symbols of one class, the sum of magnitudes) stays near its mean for random and for
+    single-position inputs.  (1) periodic tribit fills of period 1, 2, 3: walks confined to one, two or three
+    states; (2) for every class of dibit values and of constellation points, the walk through the state machine
+    that maximises / minimises the number of symbols of that class (dynamic programming over the library's own
+    transition and constellation tables; 49 steps with the flushing tribit)."""
+    out = []
+    for a in range(8):
+        out.append(("periodic-1", block_of_tribits([a] * 48)))
+        for b in range(8):
+            if b != a:
+                out.append(("periodic-2", block_of_tribits([a, b] * 24)))
+            for c in range(8):
+                if not (a == b == c):
+                    out.append(("periodic-3", block_of_tribits([a, b, c] * 16)))
+    try:
+        tr = T().TRELLIS34_ENCODER_STATE_TRANSITION
+        rev = T().TRELLIS34_CONSTELLATION_POINTS_REVERSE
+        pts = {p: tuple(rev[p]) for p in set(tr)}
+    except Exception:
+        return out
+    classes = []
+    for name, pred in (("outer", lambda d: abs(d) == 3), ("inner", lambda d: abs(d) == 1), ("positive", lambda d: d > 0),
+                       ("negative", lambda d: d < 0), ("plus3", lambda d: d == 3), ("minus3", lambda d: d == -3),
+                       ("plus1", lambda d: d == 1), ("minus1", lambda d: d == -1)):
+        classes.append((name, {p: sum(1 for d in ds if pred(d)) for p, ds in pts.items()}))
+    for k in range(0, 16, 4):
+        classes.append((f"points-{k}..{k + 3}", {p: int(k <= p < k + 4) for p in pts}))
+    classes.append(("magnitude", {p: sum(abs(d) for d in ds) for p, ds in pts.items()}))
+    for name, w in classes:
+        for sign in (1, -1):
+            # best[s] = (score, tribits) of the best walk ending in state s
+            best = {0: (0, [])}
+            for step in range(48):
+                nxt = {}
+                for st, (sc, ts) in best.items():
+                    for t in range(8):
+                        v = sc + sign * w[tr[st * 8 + t]]
+                        if t not in nxt or v > nxt[t][0]:
+                            nxt[t] = (v, ts + [t])
+                best = nxt
+            # the 49th symbol is the flush (tribit 0) from the final state
+            fin = max(best.items(), key=lambda kv: kv[1][0] + sign * w[tr[kv[0] * 8 + 0]])
+            out.append((f"aggregate-{'max' if sign > 0 else 'min'}-{name}", block_of_tribits(fin[1][1])))
     return out
 
 
